@@ -11,7 +11,7 @@ Flt = z3.DeclareSort("Flt")           # python float values (opaque; see spec/fl
 _dyn_src = """
 (declare-datatypes ((Dyn 0)) ((
   (DInt (d_int Int)) (DBool (d_bool Bool)) (DFloat (d_flt Flt)) (DStr (d_str (Seq Int)))
-  (DList (d_list (Seq Dyn))) (DDict (d_keys (Seq String)) (d_map (Array String Dyn)))
+  (DList (d_list (Seq Dyn))) (DDict (d_map (Array String Dyn)))
   (DNone) (DAbsent) (DRef (d_ref Ref)))))
 (declare-const __dyn_probe Dyn)
 """
@@ -40,7 +40,8 @@ def _ctor(name):
 
 
 def dyn_ctor(name):
-    return _ctor(name)[1]
+    c = _ctor(name)[1]
+    return c() if c.arity() == 0 else c
 
 
 def dyn_is(name, e):
@@ -89,12 +90,16 @@ class T:
             return Dyn
         if k == "float":
             return Flt
+        if k == "char":
+            return Int
+        if k == "real":
+            return z3.RealSort()
         if k == "seq":
             return z3.SeqSort(self.args[0].z3sort())
         raise TypeError(f"no z3 sort for {self}")
 
     def is_smt(self):
-        return self.kind in ("int", "bool", "str", "ref", "dyn", "float") or (
+        return self.kind in ("int", "bool", "str", "ref", "dyn", "float", "char") or (
             self.kind == "seq" and self.args[0].is_smt())
 
 
@@ -119,7 +124,7 @@ def parse_T(s: str) -> T:
     m = re.match(r"^(ref|heap):([\w.]+)$", s)
     if m:
         return T(m.group(1), (), m.group(2))
-    if s in ("int", "bool", "str", "dyn", "float", "none", "any", "func", "ref", "arr", "unit"):
+    if s in ("int", "bool", "str", "dyn", "float", "none", "any", "func", "ref", "arr", "unit", "char", "real"):
         return T(s)
     # a bare class name: decided by the class table (heap or value)
     return T("class", (), s)
@@ -173,6 +178,12 @@ def pow2_term(e):
     return pow2(e)
 
 
+def _has_free_var(e):
+    if z3.is_var(e):
+        return True
+    return any(_has_free_var(c) for c in e.children())
+
+
 def pow2_axioms(terms) -> List[z3.BoolRef]:
     """Ground instances for every pow2(t) application occurring in `terms` (and for t-1, t+1 neighbours that occur)."""
     apps = set()
@@ -182,7 +193,7 @@ def pow2_axioms(terms) -> List[z3.BoolRef]:
             return
         seen.add(e.get_id())
         if z3.is_app(e):
-            if e.decl().name() == "pow2" and e.num_args() == 1:
+            if e.decl().name() == "pow2" and e.num_args() == 1 and not _has_free_var(e.arg(0)):
                 apps.add(e)
             for c in e.children():
                 walk(c, seen)
